@@ -40,7 +40,7 @@ func (s *Sim) opConnect(op *Op) {
 	sl.sawConnack = false
 	sl.lastDiscSeen = false
 	sl.Exp = nil
-	sl.Hold = false
+	sl.Hold = op.Hold // a connect op may start with acknowledgements withheld (resends stay unacknowledged)
 	sl.heldAcks = nil
 	sl.aliasOut = map[uint16]string{}
 	sl.aliasIn = map[uint16]string{}
